@@ -244,8 +244,17 @@ package stage
 //@   before go (*Stage).finalizeQueue assert recovered-wait-bodies-are-validated: called((*Stage).toCache) && lastarg((*Stage).toCache, 2) == stateValidated && arg1 == lastarg((*Stage).toCache, 1)
 //@   forbid call (*Stage).finalize label no-direct-finalize
 //@   forbid call (*Stage).putFileAway label no-direct-delivery
+//@   forbid call (*Stage).processQueue label validation-ends-before-ready
+//@   forbid go (*Stage).process label validation-ends-before-ready
+//@   on return assert validation-ends-before-ready: called((*sync.WaitGroup).Add) ==> called((*sync.WaitGroup).Wait)
 
+// the validation worker of Recover: every recovered file is validated here, synchronously, so that
+// Recover (which waits for the workers) cannot turn the gatekeeper ready while validation is pending
 //@ func (*Stage).Recover$2
+//@   loop 0 backedge assert validation-ends-before-ready: called((*Stage).process) && lastarg((*Stage).process, 1) == lastarg((*Stage).toCache, 1)
+//@   forbid call (*Stage).processQueue label validation-ends-before-ready
+//@   forbid go (*Stage).process label validation-ends-before-ready
+//@   on return assert validation-ends-before-ready: deferred((*sync.WaitGroup).Done)
 //@   before call (*Stage).process assert recovered-are-revalidated: called((*Stage).toCache) && lastarg((*Stage).toCache, 2) == stateReceived && arg1 == lastarg((*Stage).toCache, 1)
 //@   forbid call (*Stage).finalize label no-direct-finalize
 //@   forbid go (*Stage).finalizeQueue label no-direct-finalize
